@@ -6,6 +6,7 @@ import (
 	"fmt"
 	"go/types"
 	"math/big"
+	"strings"
 	"net/netip"
 	"regexp"
 	"strconv"
@@ -127,8 +128,12 @@ func vfIntrinsic(fn *ssa.Function, base string) extFn {
 				return s
 			}
 			v := in.newInput(name, kind, sortStr)
-			if base == "vfStrK" {
-				if b, ok := strKindBase[kind[4:]]; ok {
+			if b, ok := strKindBase[strings.TrimPrefix(kind, "str:")]; !ok {
+				// free strings live in block 0, together with the interned concrete strings
+				hi := in.ts.mk("const", sortStr, nil, "", big.NewInt(1<<24))
+				in.assumeTerm(in.ts.mk("<", sortBool, []*Term{v, hi}, "", nil))
+			} else {
+				{
 					lo := in.ts.mk("const", sortStr, nil, "", big.NewInt(b))
 					hi := in.ts.mk("const", sortStr, nil, "", big.NewInt(b+1<<24))
 					in.assumeTerm(in.ts.mk("<=", sortBool, []*Term{lo, v}, "", nil))
